@@ -291,6 +291,13 @@ size_t AbstractDiscreteDistribution::getCategoryIndex(double value) const
 
 /***********************************************************************/
 
+// A quantile is kept inside the domain: in the far tails rounding (or the error value of a
+// quantile function) can lead outside of it, up to infinity or NaN.
+static double insideDomain(double q, double lowerBound, double upperBound)
+{
+  return !(q >= lowerBound) ? lowerBound : (!(q <= upperBound) ? upperBound : q);
+}
+
 void AbstractDiscreteDistribution::discretizeEqualProportions()
 {
   /* discretization of distribution with equal proportions in each
@@ -313,7 +320,7 @@ void AbstractDiscreteDistribution::discretizeEqualProportions()
     ec = (maxX - minX) / static_cast<double>(numberOfCategories_);
     for (i = 1; i < numberOfCategories_; i++)
     {
-      bounds_[i - 1] = qProb(minX + static_cast<double>(i) * ec);
+      bounds_[i - 1] = insideDomain(qProb(minX + static_cast<double>(i) * ec), intMinMax_->getLowerBound(), intMinMax_->getUpperBound());
     }
 
     // for each category, sets the value v as the median, adjusted
@@ -323,7 +330,7 @@ void AbstractDiscreteDistribution::discretizeEqualProportions()
       double t = 0;
       for (i = 0; i < numberOfCategories_; i++)
       {
-        values[i] = qProb(minX + (static_cast<double>(i) + 0.5) * ec);
+        values[i] = insideDomain(qProb(minX + (static_cast<double>(i) + 0.5) * ec), intMinMax_->getLowerBound(), intMinMax_->getUpperBound());
       }
 
       for (i = 0, t = 0; i < numberOfCategories_; i++)
